@@ -217,6 +217,11 @@ func (u *Unit) builtin(st *State, fr *Frame, in *ssa.Call, b *ssa.Builtin, args 
 			}
 		}
 		return r
+	case "ssa:wrapnilchk":
+		if pv, ok := args[0].(PtrV); ok {
+			u.safety(st, fr, in.Pos(), "nil pointer receiver of a value method", Not(pv.Nil))
+		}
+		return args[0]
 	case "print", "println":
 		return nil
 	case "delete":
